@@ -61,6 +61,11 @@ def oracle(ctx, stores):
                     why = "function %d body %s differs from the set reachable from its entry %s" % (fid, fn["nodes"], sorted(r))
                 if not dump.is_return(ns[fn["exit"]]):
                     why = "exit %d of function %d is not a return" % (fn["exit"], fid)
+                # the exit is the function's FIRST return in program order (a fixed rule, not an accident of traversal):
+                # every other return of the body was rewritten into a jump to it and comes later
+                merged = [i for i in fn["nodes"] if dump.is_return_merge(ns[i])]
+                if merged and min(merged) < fn["exit"]:
+                    why = "function %d: return %d was merged into exit %d although it comes first in the program" % (fid, min(merged), fn["exit"])
             if ns[fn["entry"]].kind != "funcentry":
                 why = "entry %d of function %d is not a function-entry node" % (fn["entry"], fid)
         labels_on_entries = set(l for n in ns if n.kind == "funcentry" for l in n.labels)
@@ -72,7 +77,7 @@ def oracle(ctx, stores):
 
 
 def run(ctx):
-    generic.run(ctx, "C11", ["new", "markup", "live"], dict(conforming=40, flow=120, random=40, injected=20, handlers=40),
+    generic.run(ctx, "C11", ["new", "markup", "live"], dict(conforming=40, flow=120, random=40, injected=20, handlers=40, cutflow=30),
                 oracle=oracle, what="function discovery")
 
 
